@@ -23,6 +23,14 @@ CLAIMED = {
         "Trusts the reference interpreter (pv/tg.py, pv/cg.py), stdlib constructors, and the list of unspecified cells in DESIGN.md section 2.",
         "DESIGN.md section 5, C01",
     ),
+    'C02': (
+        "exhaustive enumeration (itertools.product) of the kind(value) x target type x embedding context matrix against a hand-written kind-compatibility table",
+        "All 20 280 cells of 39 value instances (13 kinds) x 52 target types x 10 contexts are evaluated on every run: a value whose kind the "
+        "target's family does not admit must raise ConvertError in every context; admitted cells are decided by the reference interpreter. "
+        "Exhaustive over this matrix, not over all values.",
+        "Trusts the kind table in pv/props/c02.py (taken from the statement and docs/index.md); bool -> number and ==-matching literal cells are unspecified.",
+        "DESIGN.md section 5, C02",
+    ),
     'C03': (
         "Hypothesis type-directed generation; model-free differential oracle between the two hand-mirrored passes (try_convert vs collect_errors) at every sub-converter",
         "For every generated (type, value) and every (sub-type, sub-value) reached by walking the value, the fast pass raises "
@@ -72,6 +80,21 @@ CLAIMED = {
         "offending value of every leaf outside a sum (one per sum), and the message of every causing exception.",
         "Containment is substring-in-order, so wording/layout changes are not flagged; determinism across PYTHONHASHSEED values is not asserted.",
         "DESIGN.md section 5, C08",
+    ),
+    'C09': (
+        "Hypothesis type-directed generation with recording spy containers; before/after deep-snapshot oracle",
+        "For every generated (type, value) of both verdicts, every dict/list in the value is a spy subclass recording mutator calls; a deep "
+        "snapshot (types, contents, key order) before must equal the one after from_data, convert, Cls.from_data, keyword construction, and "
+        "into_data must leave the typed value unchanged.",
+        "A mutation through C-level dict/list APIs that bypass subclass methods is seen by the snapshot only.",
+        "DESIGN.md section 5, C09",
+    ),
+    'C11': (
+        "Hypothesis generation of overlapping unions; metamorphic oracle against pane's own member conversions (left-most accepting member), spelling-independence, and member-consistent serialisation; reference index cross-check",
+        "Unions of 2-5 overlapping members in five spellings: the union accepts iff a member accepts, returns exactly the left-most accepting "
+        "member's result, every spelling agrees, and into_data uses what a member accepting the typed value writes (or the documented runtime-type fallback).",
+        "Member verdicts are pane's own (checked by C01); the reference index is compared only where specified.",
+        "DESIGN.md section 5, C11",
     ),
     'C20': (
         "exhaustive enumeration of a finite name set + Hypothesis search, against an independent canonical renderer",
